@@ -411,6 +411,8 @@ pub enum ROp {
     Rem(u8),
     Clr,
     Pop,
+    /// an update (0) / remove (1) whose key is not UTF-8: refused, and the queue is as it was
+    Bad(u8),
 }
 
 /// key texts: (text, bucket) - texts in one bucket are Recon-equal, different buckets are not
@@ -452,6 +454,11 @@ impl RSim {
             }
             ROp::Pop => {
                 self.pop()?;
+            }
+            ROp::Bad(w) => {
+                let key = BytesMut::from(&[0xffu8, 0xfe][..]);
+                let op = if *w == 0 { MapOperation::Update { key, value: BytesMut::from(RVALS[0].as_bytes()) } } else { MapOperation::Remove { key } };
+                let _ = self.real.push(op);
             }
         }
         Ok(())
@@ -516,6 +523,8 @@ fn run_rt_leg(ctx: &Ctx, head_epoch: usize, depth: usize, name: &str) {
     }
     alpha.push(ROp::Clr);
     alpha.push(ROp::Pop);
+    alpha.push(ROp::Bad(0));
+    alpha.push(ROp::Bad(1));
     let stats = bfs_classified(
         Vec::<ROp>::new(),
         |_| alpha.clone(),
